@@ -33,6 +33,13 @@ pub fn instantiate(
     if msg.voters.is_empty() {
         return Err(ContractError::NoVoters {});
     }
+    // each address may be listed once only, else total_weight would count weights that
+    // are overwritten when the voters are stored below
+    let mut addrs: Vec<&str> = msg.voters.iter().map(|v| v.addr.as_str()).collect();
+    addrs.sort_unstable();
+    if addrs.windows(2).any(|pair| pair[0] == pair[1]) {
+        return Err(ContractError::DuplicateVoter {});
+    }
     let total_weight = msg.voters.iter().map(|v| v.weight).sum();
 
     msg.threshold.validate(total_weight)?;
